@@ -18,6 +18,14 @@ CHECKS = {
          "TLC checks that the transcribed fill / early-return / fold / re-imposition mechanism refines the specified background and forced-surface rule for every configuration, and every configuration (thermal constants x gravity x coordinate system x forced x feature set) is replayed at five depths with five property lists; additionally the outside probe of every Paint.tla stack.",
          "constants from small sets; " + NOTE,
          "TLA+/TLC (Background.tla, Paint.tla) + replay with evaluated closed-form terms"),
+ "C09": ("model_checking",
+         "TLC maps every 2D probe exactly onto the section (rational arithmetic on Pythagorean directions), checks that the probes stay away from straight feature boundaries, and every section x position x depth x property list is replayed: the 2D reply must equal the 3D reply at the mapped point block by block, velocities as the specified projection, and a world without cross section must refuse.",
+         "36 sections (origins x 6 directions x Cartesian/spherical), 45 property lists; tolerance 1e-9 because the code's own mapping rounds; " + NOTE,
+         "TLA+/TLC (CrossSection.tla) + replay comparing 2D and 3D replies"),
+ "C16": ("model_checking",
+         "The refinement mapping from C / wrapper actions to World actions is stated in CApi.tla and checked by TLC on all argument combinations; every mapped pair of actions is executed side by side in one process and compared bitwise, with the seed observed through random models and the output directory through the files written.",
+         "5 seeds incl. 2^31-1 and 2^32+5, null/non-null flag and directory; " + NOTE,
+         "TLA+/TLC refinement mapping (CApi.tla) + side-by-side replay, bitwise"),
 }
 
 NOT_APPLICABLE = {}
